@@ -339,6 +339,10 @@ func (e *Engine) applyContract(f *frame, st *State, ct *Contract, fn *ssa.Functi
 	for _, cl := range ct.Ensures {
 		e.assume(st, post.boolean(cl.Expr, cl.Text))
 	}
+	for _, cl := range ct.Assumes {
+		e.assume(st, post.boolean(cl.Expr, cl.Text))
+		e.note("ASSUMED (not checked against implementations) about " + key + ": " + cl.Text)
+	}
 	return packResults(rt, rets)
 }
 
@@ -395,6 +399,10 @@ func (e *Engine) assignTargets(ctx *evalCtx, a *Clause) []assignTarget {
 func (e *Engine) appendOnly(oldCnt, oldW, newCnt, newW *smt.Term) *smt.Term {
 	c := e.C
 	i := c.BoundVar("i", smt.BV(64))
+	if newW.Op == "ite" || len(newW.Args) > 0 {
+		// used as a goal: no instantiation pattern needed (and patterns must not contain ite)
+		return c.And(bvle(c, oldCnt, newCnt), c.Forall([]*smt.Term{i}, c.Implies(c.And(bvle(c, c.BVLit64(0, 64), i), c.Op("bvslt", smt.Bool, i, oldCnt)), c.Eq(c.Select(newW, i), c.Select(oldW, i)))))
+	}
 	keep := c.ForallPat([]*smt.Term{i}, c.Implies(c.And(bvle(c, c.BVLit64(0, 64), i), c.Op("bvslt", smt.Bool, i, oldCnt)), c.Eq(c.Select(newW, i), c.Select(oldW, i))), c.Select(newW, i))
 	return c.And(bvle(c, oldCnt, newCnt), keep)
 }
@@ -413,10 +421,13 @@ func (e *Engine) havocTarget(f *frame, st *State, ctx *evalCtx, a *Clause, pos s
 				oldCnt := e.ghostGet(st, gCount, key)
 				oldW := e.ghostGet(st, gWData, key)
 				newCnt := c.Fresh("havoc.count", smt.BV(64))
-				newW := c.Fresh("havoc.wdata", bytesInner)
+				chunk := c.Fresh("havoc.chunk", bytesInner)
+				// new contents = old contents with an unknown chunk appended at the old end (reads below the old
+				// count resolve through the splice axiom)
+				newW := c.App("arr.splice."+sortTag(smt.BV(8)), bytesInner, oldW, oldCnt, chunk, c.BVLit64(0, 64), bvsub(c, newCnt, oldCnt))
 				e.ghostSet(st, gCount, key, newCnt)
 				e.ghostSet(st, gWData, key, newW)
-				e.assume(st, e.appendOnly(oldCnt, oldW, newCnt, newW))
+				e.assume(st, bvle(c, oldCnt, newCnt))
 			} else {
 				e.ghostSet(st, gPos, key, c.Fresh("havoc.pos", smt.BV(64)))
 			}
